@@ -193,6 +193,22 @@ if $t not in $map:
     $next += 1
 """)
     fs = [e_ for e_ in fs if any(isinstance(q, ast.For) for q in _ancestors(e_["@node"]))]
+    if not fs:
+        # ... or in two passes: the distinct tags first, in order of first appearance
+        # (dict.fromkeys keeps it; a set would not), then numbered consecutively
+        for e_ in find(fd, """
+for $t in $$seq:
+    $map[$t] = $next
+    $next += 1
+"""):
+            seq = e_["@node"].iter
+            if isinstance(seq, ast.Name):
+                asg = [a.value for a in ast.walk(fd) if isinstance(a, ast.Assign)
+                       and any(isinstance(t_, ast.Name) and t_.id == seq.id for t_ in a.targets)]
+                seq = asg[0] if len(asg) == 1 else seq
+            if isinstance(seq, ast.Call) and ast.unparse(seq.func) == "dict.fromkeys" \
+                    and len(seq.args) == 1:
+                fs.append(e_)
     c.check(len(fs) == 1, "R09-TAGS", "distributed.tags.number_distributed_tags",
             "first-seen-strictly-increasing", where,
             "a new symbolic tag is not assigned the current counter followed by an "
@@ -220,6 +236,11 @@ if $t not in $map:
                 return True
             if isinstance(e, ast.BinOp) and isinstance(e.op, ast.Add):
                 return ordered_seq(e.left) and ordered_seq(e.right)
+            if isinstance(e, ast.GeneratorExp):
+                return True
+            if isinstance(e, ast.Call) and ast.unparse(e.func) in (
+                    "chain", "itertools.chain") and e.args:
+                return all(ordered_seq(a) for a in e.args)
             if isinstance(e, ast.Call) and isinstance(e.func, ast.Name) \
                     and e.func.id in ("tuple", "list") and len(e.args) == 1:
                 return ordered_seq(e.args[0]) or isinstance(e.args[0], ast.GeneratorExp)
